@@ -40,6 +40,12 @@ def run(ctx, res):
     cr2 = C.run_corr(ctx.pid, "nnm_small", nnm.IMPORTS, "nnm_case", sm, nnm.case_lit, "agree_nnm", shard=150, show="show_nnm")
     res.corr.append(("NonnegMean.test vs NNM.run_test on all samples over {0,u/2,u} up to length 4/5", cr2, nnm.case_json))
     cases = cases + sm
+    nd = []
+    for i in range(ctx.n(600, 8000)):
+        cfg, xs = nnm.gen_nondyadic(ctx.rng)
+        nd.append({"cfg": cfg, "xs": xs, "impl": nnm.run_impl(cfg, xs, variant=i), "tag": "non-dyadic (oracle only)"})
+    res.stats_nd = len(nd)
+    cases = cases + nd
     res.evaluations += len(cases)
     for c in cases:
         res.oracle_runs += 1
